@@ -21,8 +21,19 @@ Section Slot.
     end.
 
   (* one check: the slot afterwards, the value used (None: an error is returned), whether a (re)load happened.
-     A failed load clears the value and leaves the recorded key as it was (`clear()` before the `?`). *)
+     A reload first clears the value AND the record of what was loaded (`clear()`, `ft.clear()` before the `?`), so a
+     failed load leaves an empty slot. *)
   Definition check (guard : bool) (s : slot) (k : str) : slot * option V * bool :=
+    if needs_reload guard s k then
+      match load k with
+      | Some v => (Slot (Some k) (Some v), Some v, true)
+      | None => (empty_slot, None, true)
+      end
+    else (s, s_val s, false).
+
+  (* the variant that keeps the record of the previous load when a load fails (the library before the repair
+     "fix: a failed rule, Unicode or definitions load left the record ..."): see CachesP.L_kept_record_is_stale *)
+  Definition check_keep (guard : bool) (s : slot) (k : str) : slot * option V * bool :=
     if needs_reload guard s k then
       match load k with
       | Some v => (Slot (Some k) (Some v), Some v, true)
@@ -36,15 +47,19 @@ Section Slot.
     | k :: r => let '(s1, v, b) := check guard s k in let '(s2, out) := run guard s1 r in (s2, (v, b) :: out)
     end.
 
-  (* what is in the slot was loaded for the key recorded beside it *)
+  (* what is in the slot was loaded for the key recorded beside it, and a recorded key has its value *)
   Definition slot_inv (s : slot) : Prop :=
-    forall k v, s_key s = Some k -> s_val s = Some v -> load k = Some v.
+    match s_key s with
+    | Some k => exists v, s_val s = Some v /\ load k = Some v
+    | None => s_val s = None
+    end.
 End Slot.
 Arguments Slot {V}.
 Arguments s_key {V}.
 Arguments s_val {V}.
 Arguments empty_slot {V}.
 Arguments check {V}.
+Arguments check_keep {V}.
 Arguments run {V}.
 Arguments needs_reload {V}.
 Arguments slot_inv {V}.
